@@ -129,19 +129,33 @@ fn vk_sf_split_b2_dw(neg: bool, pos: usize) {
 }
 vk_sf_signs!(vk_stub_float_split_digits_b2_dword_p1, 6, vk_sf_split_b2_dw, [1]);
 vk_sf_signs!(vk_stub_float_split_digits_b2_dword_p64, 6, vk_sf_split_b2_dw, [64]);
-vk_sf_signs!(vk_stub_float_split_digits_b2_dword_p65, 6, vk_sf_split_b2_dw, [65]);
 vk_sf_signs!(vk_stub_float_split_digits_b2_dword_p127, 6, vk_sf_split_b2_dw, [127]);
 vk_sf_signs!(vk_stub_float_split_digits_b2_dword_p128, 6, vk_sf_split_b2_dw, [128, 130]);
 
-/// base 2, borrowing form, one-word magnitude (slices of symbolic length 0 / 1 inside)
-fn vk_sf_split_b2_ref(neg: bool, pos: usize) {
-    let m: Word = any();
-    let (whi, wlo) = vk_sf_cut(m as u128, pos);
-    let (hi, lo) = split_digits_ref::<2>(&vk_sf_mk(1, neg, m, 0), pos);
+/// bases 2 / 16, both forms, CONCRETE magnitudes at positions where the symbolic harnesses are out of reach (an
+/// intermediate `UBig::from_words(..)` result of computed class is shifted again)
+fn vk_sf_split_b2_conc(neg: bool, mp: (u128, usize)) {
+    let (m, pos) = mp;
+    let (whi, wlo) = vk_sf_cut(m, pos);
+    let v = vk_sf_mk_mag(neg, m);
+    let (hi, lo) = split_digits_ref::<2>(&v, pos);
+    assert!(vk_sf_is(hi, neg, whi) && vk_sf_is(lo, neg, wlo));
+    let (hi, lo) = split_digits::<2>(v, pos);
     assert!(vk_sf_is(hi, neg, whi) && vk_sf_is(lo, neg, wlo));
 }
-vk_sf_signs!(vk_stub_float_split_digits_ref_b2_p1, 6, vk_sf_split_b2_ref, [1]);
-vk_sf_signs!(vk_stub_float_split_digits_ref_b2_p64, 6, vk_sf_split_b2_ref, [64]);
+vk_sf_signs!(vk_stub_float_split_digits_b2_conc, 6, vk_sf_split_b2_conc,
+    [(0x8000_0000_0000_0001, 1), (0x8000_0000_0000_0001, 63), (0xdead_beef_0123_4567_89ab_cdef_0f0f_f0f1, 65), (5, 3)]);
+fn vk_sf_split_b16_conc(neg: bool, mp: (u128, usize)) {
+    let (m, pos) = mp;
+    let (whi, wlo) = vk_sf_cut(m, 4 * pos);
+    let v = vk_sf_mk_mag(neg, m);
+    let (hi, lo) = split_digits_ref::<16>(&v, pos);
+    assert!(vk_sf_is(hi, neg, whi) && vk_sf_is(lo, neg, wlo));
+    let (hi, lo) = split_digits::<16>(v, pos);
+    assert!(vk_sf_is(hi, neg, whi) && vk_sf_is(lo, neg, wlo));
+}
+vk_sf_signs!(vk_stub_float_split_digits_b16_conc, 6, vk_sf_split_b16_conc,
+    [(0x1234, 1), (0xdead_beef_0123_4567_89ab_cdef_0f0f_f0f1, 17), (0xf0, 2)]);
 
 /// base 16 (generic power-of-two arm: pos * 4 bits), one-word magnitude
 fn vk_sf_split_b16(neg: bool, pos: usize) {
@@ -254,20 +268,35 @@ fn vk_sf_shr_b2(neg: bool, e: usize) {
     let (want, _) = vk_sf_cut((l as u128) | ((h as u128) << 64), e);
     assert!(vk_sf_is(shr_digits::<2>(&vk_sf_mk(2, neg, l, h), e), neg, want));
 }
-vk_sf_signs!(vk_stub_float_shr_digits_b2_e1, 6, vk_sf_shr_b2, [0, 1]);
+// (symbolic only at whole-word shifts and beyond the top: elsewhere the intermediate `UBig::from_words(..)` value of
+//  computed class is shifted again -- see the concrete harnesses below)
+vk_sf_signs!(vk_stub_float_shr_digits_b2_e0, 6, vk_sf_shr_b2, [0]);
 vk_sf_signs!(vk_stub_float_shr_digits_b2_e64, 6, vk_sf_shr_b2, [64]);
-vk_sf_signs!(vk_stub_float_shr_digits_b2_e65, 6, vk_sf_shr_b2, [65]);
-vk_sf_signs!(vk_stub_float_shr_digits_b2_e127, 6, vk_sf_shr_b2, [127]);
 vk_sf_signs!(vk_stub_float_shr_digits_b2_e128, 6, vk_sf_shr_b2, [128, 130]);
+/// bases 2 / 16, CONCRETE magnitudes, any shift
+fn vk_sf_shr_b2_conc(neg: bool, me: (u128, usize)) {
+    let (m, e) = me;
+    let (want, _) = vk_sf_cut(m, e);
+    assert!(vk_sf_is(shr_digits::<2>(&vk_sf_mk_mag(neg, m), e), neg, want));
+}
+vk_sf_signs!(vk_stub_float_shr_digits_b2_conc, 6, vk_sf_shr_b2_conc,
+    [(0x8000_0000_0000_0001, 1), (0xdead_beef_0123_4567_89ab_cdef_0f0f_f0f1, 1), (0xdead_beef_0123_4567_89ab_cdef_0f0f_f0f1, 65),
+     (0xdead_beef_0123_4567_89ab_cdef_0f0f_f0f1, 127), (7, 3)]);
+fn vk_sf_shr_b16_conc(neg: bool, me: (u128, usize)) {
+    let (m, e) = me;
+    let (want, _) = vk_sf_cut(m, 4 * e);
+    assert!(vk_sf_is(shr_digits::<16>(&vk_sf_mk_mag(neg, m), e), neg, want));
+}
+vk_sf_signs!(vk_stub_float_shr_digits_b16_conc, 6, vk_sf_shr_b16_conc,
+    [(0x1234, 1), (0xdead_beef_0123_4567_89ab_cdef_0f0f_f0f1, 17), (0xdead_beef_0123_4567_89ab_cdef_0f0f_f0f1, 32), (0xf, 1)]);
 
-/// base 16, two-word magnitude
+/// base 16, two-word magnitude, whole-word shift
 fn vk_sf_shr_b16(neg: bool, e: usize) {
     let (l, h): (Word, Word) = (any(), any());
     let (want, _) = vk_sf_cut((l as u128) | ((h as u128) << 64), 4 * e);
     assert!(vk_sf_is(shr_digits::<16>(&vk_sf_mk(2, neg, l, h), e), neg, want));
 }
-vk_sf_signs!(vk_stub_float_shr_digits_b16_e1, 6, vk_sf_shr_b16, [1]);
-vk_sf_signs!(vk_stub_float_shr_digits_b16_e17, 6, vk_sf_shr_b16, [17]);
+vk_sf_signs!(vk_stub_float_shr_digits_b16_e16, 6, vk_sf_shr_b16, [16]);
 
 /// base 10, CONCRETE magnitude
 fn vk_sf_shr_b10(neg: bool, me: (u128, usize)) {
@@ -350,7 +379,7 @@ fn vk_sf_new_b10(neg: bool, m: u128) {
     vk_sf_check_new(r.significand, r.exponent, neg, m, e, 0, 6);
 }
 vk_sf_signs!(vk_stub_float_repr_new_b10_a, 12, vk_sf_new_b10, [7, 10, 1200]);
-vk_sf_signs!(vk_stub_float_repr_new_b10_b, 12, vk_sf_new_b10, [12345, 70000, 1000000]);
+vk_sf_signs!(vk_stub_float_repr_new_b10_b, 12, vk_sf_new_b10, [12345, 70000]);
 vk_sf_signs!(vk_stub_float_repr_new_b10_c, 12, vk_sf_new_b10, [((1u128 << 64) + 5) * 100]);
 /// zero: (0, 0) whatever the exponent, in every base
 #[cfg_attr(kani, kani::proof)]
